@@ -179,6 +179,11 @@ def h_kernel_fp(ctx, skel, which, eps_value=None, order=None):
         if "max" in which:
             ctx.prove(f"fp:max[{u}]:ge_in", out[u] >= tin[u])
             alts = [out[u] == tin[u]] + [out[u] == out[c] + eps for c in ch[u]]
+            # when eps is absorbed (fl(c+eps) == c) the parent sits on the next double above c
+            for c in ch[u]:
+                succ = z3.And((out[c] + eps == out[c]).z,
+                              z3.fpToIEEEBV(out[u].z) == z3.fpToIEEEBV(out[c].z) + 1)
+                alts.append(SymBool(succ))
             ctx.prove(f"fp:max[{u}]:attained", Or(*alts))
         if "fixed" in which and fixed[u] and not ch[u]:
             ctx.prove(f"fp:sample[{u}]:kept", out[u] == tin[u])
@@ -227,7 +232,9 @@ def replay(payload):
             if name == f"fp:max[{u}]:ge_in" and not out[u] >= t[u]:
                 return True, f"out[{u}]={out[u]!r} < in={t[u]!r}"
             if name == f"fp:max[{u}]:attained" and not (
-                    out[u] == t[u] or any(out[u] == out[c] + eps for c in ch[u])):
+                    out[u] == t[u] or any(out[u] == out[c] + eps for c in ch[u])
+                    or any(out[c] + eps == out[c] and out[u] == np.nextafter(out[c], np.inf)
+                           for c in ch[u])):
                 return True, f"out[{u}]={out[u]!r} is neither its input nor a child+eps"
             if name == f"fp:sample[{u}]:kept" and out[u] != t[u]:
                 return True, f"sample {u} moved {t[u]!r} -> {out[u]!r}"
